@@ -161,7 +161,11 @@ func targets(full bool) []*target {
 // core reports whether target ti gets the full-depth treatment in the thorough tier: everything except
 // the ~1000 AES-CTR-HMAC parameter combinations, of which every eighth (rotating with the seed) is core.
 func core(t *target, ti int) bool {
-	return t.Mode != "keyset" || len(t.Keys) > 1 || t.Keys[0].KT != "AESCTRHMAC" || ti%8 == int(vt.Seed())%8
+	every := 8
+	if *prop == "C02" {
+		every = 16
+	}
+	return t.Mode != "keyset" || len(t.Keys) > 1 || t.Keys[0].KT != "AESCTRHMAC" || ti%every == int(vt.Seed())%every
 }
 
 var boundaryLens = []int{0, 1, 15, 16, 17, 31, 32, 33, 63, 64, 65, 255, 256, 257}
@@ -276,7 +280,9 @@ func requests(ts []*target, full bool) []sealReq {
 		if *prop == "C02" {
 			lens = []int{1, 0}
 			if full && core(t, ti) {
-				lens = []int{1, 0, 16, 33}
+				lens = []int{1, 0, 16}
+			} else if full {
+				lens = []int{1}
 			}
 		} else if full && !core(t, ti) {
 			lens = []int{0, 1, 16, 17, 33, 64}
@@ -296,7 +302,7 @@ func requests(ts []*target, full bool) []sealReq {
 				if ki > 0 && li > 1 {
 					break
 				}
-				q := sealReq{N: len(qs), T: ti, Key: ki, Pt: content(r, n, li+ti), Muts: *prop == "C02" && (li == 0 || (full && li == 1 && core(t, ti)))}
+				q := sealReq{N: len(qs), T: ti, Key: ki, Pt: content(r, n, li+ti), Muts: *prop == "C02" && li == 0}
 				q.Ad, _ = adOf(r, li+ti+1)
 				if *prop == "C01" && li == 3 && ki == 0 { // one specification-made ciphertext with long associated data
 					q.Ad = content(r, []int{256, 8192, 300, 8193}[ti%4], ti/4)
